@@ -3,8 +3,14 @@ package verifsim
 import "fmt"
 
 func installOracles(m *Monitors) {
+	finalProp := "C02"
+	if m.primary["C07"] {
+		finalProp = "C07"
+	}
+	m.final = &finalOracle{baseOracle: baseOracle{m}, prop: finalProp}
 	m.oracles = []oracle{
 		&orC02{baseOracle: baseOracle{m}},
+		m.final,
 	}
 }
 
